@@ -56,13 +56,41 @@ const LAYER_PAIRS: &[(&str, &[&str])] = &[
     ("t-keep", &["min", "full"]),
     ("t-mig-replace", &["invalid"]),
     ("t-mig-recreate", &["invalid"]),
-    ("envwrite", &["bare", "full"]),
+    ("envwrite", &["bare", "full", "rich"]),
     ("envwrite-empty", &["full"]),
+    // further operations: several entries per scope and two process types, all three / only the middle SBOM format, an SBOM
+    // and an env value without bytes, several exec.d programs, trait-API results of that size
+    ("wenv-multi", &["absent", "rich"]),
+    ("wenv-emptyval", &["full", "emptyvals"]),
+    ("wsbom-all", &["full", "spdx"]),
+    ("wsbom-spdx", &["rich"]),
+    ("wsbom-empty", &["full", "emptyvals"]),
+    ("wexecd-multi", &["absent", "rich"]),
+    ("t-recreate-multi", &["absent", "rich"]),
+    ("t-update-multi", &["min", "rich"]),
+];
+/// further (operation, state) pairs of the quick tier: the operations above on the further prepared states
+const MORE_PAIRS: &[(&str, &[&str])] = &[
+    ("cached-del", &["spdx", "rich", "wide"]),
+    ("cached-repl", &["richinv"]),
+    ("uncached", &["spdx"]),
+    ("wsbom", &["spdx", "rich"]),
+    ("wsbom-none", &["spdx", "rich"]),
+    ("wexecd", &["rich"]),
+    ("wexecd-none", &["rich", "wide"]),
+    ("wenv", &["rich"]),
+    ("wenv-empty", &["rich"]),
+    ("t-recreate", &["spdx"]),
+    ("t-update", &["emptyvals"]),
+    ("t-keep", &["rich", "wide", "emptyvals"]),
+    ("t-mig-replace", &["richinv"]),
+    ("t-mig-recreate", &["richinv"]),
 ];
 const PHASE_PAIRS: &[(&str, &[&str])] = &[
     ("detect-plan", &["clean", "existing"]),
     ("build-all", &["clean", "existing"]),
     ("build-none", &["existing"]),
+    ("build-sboms", &["clean", "existing"]),
 ];
 fn is_phase(op: &str) -> bool { op.starts_with("detect") || op.starts_with("build") }
 
@@ -114,12 +142,13 @@ fn run_child(op: &str, state: &str, fail: Option<(usize, i32)>) -> Result<RunOut
             .env("CNB_BUILDPACK_DIR", root.join("bp")).env("CNB_TARGET_OS", "linux").env("CNB_TARGET_ARCH", "amd64")
             .env("CNB_TARGET_DISTRO_NAME", "ubuntu").env("CNB_TARGET_DISTRO_VERSION", "24.04")
             .env("TBP_DETECT", "passplan")
-            .env("TBP_BUILD", if op == "build-all" { "ok:launch,store,b.cdx,l.spdx" } else { "ok:" });
+            .env("TBP_BUILD", if op == "build-all" { "ok:launch,store,b.cdx,l.spdx" } else if op == "build-sboms" { "ok:launch,store,b.cdx,b.spdx,b.syft,l.cdx,l.spdx,l.syft" } else { "ok:" });
     } else {
         cmd = Command::new(exe_dir().join("c12op"));
         cmd.args(["run", root.to_str().unwrap(), op, state]).env("FAULTFS_START", "disarmed");
     }
-    cmd.env("LD_PRELOAD", shim_path()).env("FAULTFS_PREFIX", root.join("fs")).env("FAULTFS_LOG", &log)
+    // FAULTFS_FIXED_RANDOM: the child's HashMaps (per-process env deltas, exec.d programs) iterate in the same order in every run
+    cmd.env("LD_PRELOAD", shim_path()).env("FAULTFS_PREFIX", root.join("fs")).env("FAULTFS_LOG", &log).env("FAULTFS_FIXED_RANDOM", "1")
         .stdin(Stdio::null()).stderr(Stdio::null()).stdout(Stdio::piped());
     if let Some((k, e)) = fail { cmd.env("FAULTFS_FAIL_AT", k.to_string()).env("FAULTFS_ERRNO", e.to_string()); } else { cmd.env_remove("FAULTFS_FAIL_AT"); }
     let out = cmd.output().map_err(|e| format!("spawn: {e}"))?;
@@ -222,7 +251,7 @@ fn occurrence(log: &[Call], k: usize) -> usize {
     }
 }
 
-const LAYER_STATES: &[&str] = &["absent", "orphan", "bare", "min", "typed", "full", "invalid", "broken"];
+const LAYER_STATES: &[&str] = &["absent", "orphan", "bare", "min", "typed", "full", "invalid", "broken", "spdx", "rich", "richinv", "wide", "emptyvals"];
 const PHASE_STATES: &[&str] = &["clean", "existing"];
 
 /// quick: the listed representative pairs; thorough: every operation on every prepared state
@@ -236,6 +265,7 @@ fn pairs(thorough: bool) -> Vec<(String, String)> {
             v.push((op.to_string(), st.to_string()));
         }
     }
+    if !thorough { for (op, states) in MORE_PAIRS { for st in *states { v.push((op.to_string(), st.to_string())); } } }
     v
 }
 
